@@ -305,7 +305,9 @@ def hookfree_body(t, k):
     try:
         if pos.startswith("arg") or pos in ("return", "return-in-list", "yield"):
             fr = FakeFrame(CodeView(F.gen_func.__code__), {"n": value if pos.startswith("arg") else 1}, _Globals())
-            tracer.cache[fr.f_code] = F.gen_func
+            from harness.frames import seed_function
+
+            seed_function(tracer, fr.f_code, F.gen_func)
             tracer(fr, "call", None)
             if pos == "yield":
                 fr.f_code.co_code = [YIELD_OP]
@@ -327,7 +329,9 @@ def hookfree_body(t, k):
             code = type(obj).meth.__code__
             fr = FakeFrame(code, {"self": obj, "x": 1}, _Globals())
             tracer(fr, "call", None)
-            if fr not in tracer.traces:
+            from harness.frames import in_flight
+
+            if not in_flight(tracer, fr):
                 return check(False, lambda: f"{kname} as receiver: method not resolved")
         else:
             # function lookup that has to search: the code object is not reachable by name
